@@ -24,3 +24,52 @@ package repl
 //@   ensures suffix: forall k :: (active(start, end, old(len(s.forms))) && lo(end, old(len(s.forms))) <= k && k < len(s.forms)) ==> s.forms[k] == old(s.forms[k + cut(start, end, old(len(s.forms)))])
 //@   ensures noop-frame: forall k :: (!active(start, end, old(len(s.forms))) && 0 <= k && k < len(s.forms)) ==> s.forms[k] == old(s.forms[k])
 //@   ensures canary-len: len(s.forms) == old(len(s.forms))
+
+// C20: a remembered form is a deep copy of what the caller handed in; the
+// editor keeps and reuses its line buffers.
+//@ func repl.(Form).Dup
+//@   property C20
+//@   option wf-entry-slices
+//@   option frame-arrays
+//@   ensures same-len: len(result0) == len(f)
+//@   ensures fresh-outer: len(f) > 0 ==> fresh(result0)
+//@   ensures fresh-lines: forall i :: (0 <= i && i < len(f) && len(f[i]) > 0) ==> fresh(result0[i])
+//@   ensures line-lens: forall i :: (0 <= i && i < len(f)) ==> len(result0[i]) == len(f[i])
+//@   ensures same-runes: forall i, j :: (0 <= i && i < len(f) && 0 <= j && j < len(f[i])) ==> result0[i][j] == old(f[i][j])
+//@   loop rangeindex: invariant fresh-lines: forall i :: (0 <= i && i <= rangeindex && len(f[i]) > 0) ==> fresh(d[i])
+//@   loop rangeindex: invariant lines-allocated: forall i :: (0 <= i && i <= rangeindex) ==> live(d[i])
+//@   loop rangeindex: invariant line-lens: forall i :: (0 <= i && i <= rangeindex) ==> len(d[i]) == len(f[i])
+//@   loop rangeindex: invariant input-kept: forall i, j :: (0 <= i && i < len(f) && 0 <= j && j < len(f[i])) ==> f[i][j] == old(f[i][j])
+//@   loop rangeindex: invariant same-runes: forall i, j :: (0 <= i && i <= rangeindex && 0 <= j && j < len(f[i])) ==> d[i][j] == f[i][j]
+
+// C20: the stash remembers a private copy, appended after the forms it
+// already held (the file gets the same form appended).
+//@ func repl.(*Stash).Add
+//@   property C20
+//@   option wf-entry-slices
+//@   on-store forms appends-one: len(now) == len(was) + 1 && (forall k :: (0 <= k && k < len(was)) ==> now[k] == was[k])
+//@   on-store forms appends-copy: len(now[len(was)]) == len(form) && (len(form) > 0 ==> fresh(now[len(was)])) && (forall i :: (0 <= i && i < len(form) && len(form[i]) > 0) ==> fresh(now[len(was)][i]))
+//@   on-store forms appends-same-text: forall i, j :: (0 <= i && i < len(form) && 0 <= j && j < len(form[i])) ==> (len(now[len(was)][i]) == len(form[i]) && now[len(was)][i][j] == form[i][j])
+
+// C20: SetLimit touches no file, so it must not change what is remembered
+// either (memory and file would disagree at the next restart).
+//@ func repl.(*History).SetLimit
+//@   property C20
+//@   no-store forms
+//@   ensures limit-set: h.limit == limit
+//@   ensures max-covers-limit: (0 < limit && limit <= 1000000000) ==> h.limit <= h.max
+
+// C20: History.Add appends a private copy; at max it keeps exactly the most
+// recent limit forms, in order, writes them to a temporary file that starts
+// empty and renames it over the history only when every write succeeded.
+//@ func repl.(*History).Add
+//@   property C20
+//@   option wf-entry-slices
+//@   requires max-covers-limit: h.limit <= 0 || h.limit <= h.max
+//@   on-store forms#1 appends-one: len(now) == len(was) + 1 && (forall k :: (0 <= k && k < len(was)) ==> now[k] == was[k])
+//@   on-store forms#1 appends-copy: len(now[len(was)]) == len(form) && (len(form) > 0 ==> fresh(now[len(was)])) && (forall i :: (0 <= i && i < len(form) && len(form[i]) > 0) ==> fresh(now[len(was)][i]))
+//@   on-store forms#1 appends-same-text: forall i, j :: (0 <= i && i < len(form) && 0 <= j && j < len(form[i])) ==> (len(now[len(was)][i]) == len(form[i]) && now[len(was)][i][j] == form[i][j])
+//@   on-store forms#2 keeps-most-recent: len(now) == h.limit && (forall k :: (0 <= k && k < h.limit) ==> now[k] == was[len(was) - h.limit + k])
+//@   on-call OpenFile#1 temporary-starts-empty: hasbits($arg1, os.O_TRUNC)
+//@   on-call Rename all-writes-succeeded: err == nil
+//@   on-call Rename whole-history-written: rangeindex + 1 >= len(h.forms)
